@@ -230,6 +230,7 @@ func init() {
 			{Name: "exactsizes", QShards: 2, TShards: 4, Run: exactSizeUnit("fastq")},
 			{Name: "tiny", TShards: 4, Run: tinyUnit("fastq")},
 			{Name: "namesbyseq", QShards: 2, TShards: 4, Run: c02NamesBySeq},
+			{Name: "quallens", QShards: 2, TShards: 4, Run: c02QualLens},
 			firstCallUnit(firstCodec("fastq")),
 		},
 	})
@@ -573,5 +574,51 @@ func c02NamesBySeq(c *Ctx) {
 			})
 			idx++
 		}
+	}
+}
+
+// c02QualLens: "qualities of a different length produce an error" — for EVERY
+// pair of lengths: sequences of 0..64 bases with quality lines of 0..300 bytes
+// (thorough 0..1200), and sequences of 100, 384 and 1000 bases with quality
+// lines up to 1700 bytes longer. The corrupt unit changes the length by 1..3;
+// a length test that goes through sizes of buffers (capacities, size classes,
+// blocks) is wrong for particular pairs far from the diagonal.
+func c02QualLens(c *Ctx) {
+	maxQ := c.N(300, 1200)
+	type span struct{ s, lo, hi int }
+	var spans []span
+	for sl := 0; sl <= 64; sl++ {
+		spans = append(spans, span{sl, 0, maxQ})
+	}
+	for _, sl := range []int{100, 384, 1000} {
+		spans = append(spans, span{sl, max(0, sl-40), sl + 1700})
+	}
+	for i, sp := range spans {
+		c.Case(int64(i), func(k *K) {
+			r := k.Rand()
+			first := &fastq.Fastq{Name: []byte("r1"), Sequence: []byte("ACGT"), Quals: []byte("IIII")}
+			last := &fastq.Fastq{Name: []byte("r3"), Sequence: []byte("GG"), Quals: []byte("#5")}
+			seq := randSeq(r, []byte("ACGTN"), sp.s)
+			for q := sp.lo; q <= sp.hi; q++ {
+				if q == sp.s {
+					continue
+				}
+				quals := randSeq(r, []byte("!#5?I~"), q)
+				bad := &fastq.Fastq{Name: []byte("r2"), Sequence: seq, Quals: quals}
+				var text []byte
+				text = append(text, "@r1\nACGT\n+\nIIII\n@r2\n"...)
+				text = append(append(append(append(text, seq...), "\n+\n"...), quals...), "\n@r3\nGG\n+\n#5\n"...)
+				k.Input("sequence_length", sp.s)
+				k.Input("quality_length", q)
+				fastqCorruptionCheck(k, "quality length", []*fastq.Fastq{first, bad, last}, 1, text)
+				if k.Failed() {
+					return
+				}
+				k.Count("corruptions", 1)
+				k.Count("length_pairs", 1)
+				k.Evals(1)
+			}
+			k.Nontrivial([]byte(fmt.Sprint("quallens", sp.s)))
+		})
 	}
 }
